@@ -151,3 +151,17 @@ Lemma small_space_sink_ok :
   forall shs ls, In shs layouts_sink -> In ls (link_seqs_sink (decls_from 0 shs)) ->
   (case_ok nofix (decls_from 0 shs, ls) && case_ok_fixed (decls_from 0 shs, ls)) = true.
 Proof. apply (layouts_ok_sink_forall (fun c => case_ok nofix c && case_ok_fixed c)). vm_cast_no_check (eq_refl true). Qed.
+
+(* ---- histories that go on after a rejected link --------------------------------------------------------------------
+   every sequence of three links over the layouts with at most two constructed objects, the caller catching every
+   rejection and going on: exactly the links that close a cycle with the ones accepted so far are rejected, and what is
+   constructed in the end obeys the accepted links. *)
+Definition case_ok_cont (fx : fixes) (c : list decl * list link) : bool :=
+  let m := run_cont fx (fst c) (snd c) in
+  negb (N.eqb (link_class fx (fst c) (fst (add_links_cont fx (components (fst c)) (snd c)))) 0)
+  || link_spec_cont_ok (fst c) (snd c) (fst m) (snd m).
+
+Lemma small_space_cont_ok :
+  forall shs ls, In shs layouts_upto2 -> In ls (link_seqs3 (components (decls_from 0 shs))) ->
+  (case_ok_cont nofix (decls_from 0 shs, ls) && case_ok_cont allfix (decls_from 0 shs, ls)) = true.
+Proof. apply (layouts_ok3_forall (fun c => case_ok_cont nofix c && case_ok_cont allfix c)). vm_cast_no_check (eq_refl true). Qed.
